@@ -115,6 +115,105 @@ def run_controls(ctx, prop, seed):
     ctx.count('sensitivity controls applicable', len(jobs))
 
 
+def _one_variant(args):
+    prop, module, text, seed = args
+    ctx, _, _ = run_property(prop, 'quick', seed, overrides={module: text})
+    return [(f.rule, f.construct, (f.witness or '')[:120]) for f in ctx.findings], len(ctx.errors)
+
+
+def run_selftest(ctx, prop, seed):
+    """thorough tier: false-alarm self-test.  Every function of every module this check consulted is rewritten in
+    five behaviour-preserving ways (hsverify/selftest.py); the check must not report anything on a variant that it
+    does not report on the tree itself."""
+    from hsverify import selftest
+    from multiprocessing import Pool
+    m = ctx.model
+    base = {(f.rule, f.construct) for f in ctx.findings}
+    base_err = len(ctx.errors)
+    jobs, labels = [], []
+    for modname in sorted(getattr(m, 'consulted', ())):
+        try:
+            text = m.mod(modname).text
+        except model.AnalysisError:
+            continue
+        for label, src in selftest.variants(modname, text, ['T1', 'T2', 'T3', 'T4', 'T5']):
+            jobs.append((prop, modname, src, seed))
+            labels.append(label)
+    if not jobs:
+        return
+    try:
+        with Pool(16) as pool:
+            results = pool.map(_one_variant, jobs, chunksize=4)
+    except Exception as e:  # pragma: no cover
+        ctx.error('selftest', 'variant pool failed: %s' % e)
+        return
+    alarms = undecided = 0
+    for label, (finds, nerr) in zip(labels, results):
+        new = [f for f in finds if (f[0], f[1]) not in base]
+        if new:
+            alarms += 1
+            ctx.error('selftest', 'behaviour-preserving rewrite %s made the check report %s (%s): the rule is not robust; its '
+                                  'verdicts on this tree are not to be trusted' % (label, new[0][0], new[0][2]))
+        elif nerr > base_err:
+            undecided += 1
+    ctx.count('behaviour-preserving variants analysed (self-test)', len(jobs))
+    ctx.count('variants answered "cannot decide"', undecided)
+    ctx.controls.append({'control': 'false-alarm self-test: %d behaviour-preserving rewrites of %d consulted modules'
+                                    % (len(jobs), len(getattr(m, 'consulted', ()))), 'applicable': True, 'expect': 'silent',
+                         'as_expected': alarms == 0, 'reported': [], 'errors': []})
+
+
+def run_seed_regression(ctx, prop, seed):
+    """thorough tier: the stored seeded changes of this property (/verif/seeded/<name>/patch.diff), applied in memory to
+    the tree being checked; each must make the check report a violation (skipped when a patch no longer applies)."""
+    import glob
+    import subprocess
+    import tempfile
+    import shutil
+    m = ctx.model
+    base = {(f.rule, f.construct, f.stmt) for f in ctx.findings}
+    n = caught = 0
+    for meta_path in sorted(glob.glob(os.path.join(HERE, 'seeded', '*', 'meta.json'))):
+        try:
+            meta_ = json.load(open(meta_path))
+        except Exception:
+            continue
+        if meta_.get('property') != prop:
+            continue
+        d = os.path.dirname(meta_path)
+        work = tempfile.mkdtemp(prefix='seedchk_')
+        try:
+            os.makedirs(os.path.join(work, 'hszinc'))
+            for name, mod in m.modules.items():
+                with open(os.path.join(work, 'hszinc', name + '.py'), 'w', encoding='utf-8') as f:
+                    f.write(mod.text)
+            p = subprocess.run('git init -q . && git apply %s' % os.path.join(d, 'patch.diff'), shell=True, cwd=work,
+                               capture_output=True, text=True)
+            if p.returncode != 0:
+                ctx.controls.append({'control': 'seeded change %s' % os.path.basename(d), 'applicable': False,
+                                     'why': 'patch does not apply to this tree'})
+                continue
+            overrides = {}
+            for name, mod in m.modules.items():
+                t = open(os.path.join(work, 'hszinc', name + '.py'), encoding='utf-8').read()
+                if t != mod.text:
+                    overrides[name] = t
+        finally:
+            shutil.rmtree(work, ignore_errors=True)
+        c2, _, _ = run_property(prop, 'quick', seed, overrides=overrides)
+        new = [f for f in c2.findings if (f.rule, f.construct, f.stmt) not in base]
+        n += 1
+        ok = bool(new)
+        caught += 1 if ok else 0
+        ctx.controls.append({'control': 'seeded change %s' % os.path.basename(d), 'applicable': True, 'expect': 'violation',
+                             'as_expected': ok, 'reported': ['%s: %s' % (f.rule, (f.witness or '')[:100]) for f in new[:1]],
+                             'errors': [e['error'][:120] for e in c2.errors[:1]]})
+        if not ok:
+            ctx.error('controls', 'seeded change %s is no longer reported: the checker lost sensitivity' % os.path.basename(d))
+    ctx.count('seeded changes of this property replayed', n)
+    ctx.count('seeded changes reported', caught)
+
+
 def main(argv):
     if len(argv) >= 2 and argv[0] == '--replay':
         with open(argv[1], encoding='utf-8') as f:
@@ -151,6 +250,8 @@ def main(argv):
         if tier == 'thorough' and ctx.model is not None:
             try:
                 run_controls(ctx, prop, seed)
+                run_seed_regression(ctx, prop, seed)
+                run_selftest(ctx, prop, seed)
             except Exception as e:  # pragma: no cover
                 ctx.error('controls', '%s: %s' % (type(e).__name__, e))
         cmd = '/venv/bin/python check.py %s --tier %s' % (prop, tier)
